@@ -57,7 +57,7 @@ func ReadRequest(r io.Reader) (apiVersion int16, correlationID int32, clientID s
 		if d.lengthOutOfBounds(taggedCount) {
 			taggedCount = 0
 		}
-		for i := 0; i < taggedCount; i++ {
+		for i := 0; i < taggedCount && d.err == nil; i++ {
 			d.readUnsignedVarInt() // tagID
 			size := d.readUnsignedVarInt()
 
